@@ -2,8 +2,8 @@
 From Coq Require Import Reals Arith List QArith Qcanon Lra Lia String.
 From Coquelicot Require Import Coquelicot.
 From QV.Core Require Import OF Sums Mat QcOF ROF.
-From QV.Model Require Import C12_Loss C12_Mixed C12_Dispatch C12_Skeleton.
-From QV.Proofs Require Import C12_Loss C12_Config C12_RelEntropy C12_RelEntropyR C12_Mixed C12_Dispatch C12_Skeleton.
+From QV.Model Require Import C12_Loss C12_Mixed C12_Dispatch C12_Skeleton C12_Slices.
+From QV.Proofs Require Import C12_Loss C12_Config C12_RelEntropy C12_RelEntropyR C12_Mixed C12_Dispatch C12_Skeleton C12_Slices.
 Import ListNotations.
 
 Lemma main_se_hessian_is_twice_half_and_symmetric : forall (R : CR) ns m nv (W : @wts R) (A : @mat R) (b q v : @vec R),
@@ -198,6 +198,18 @@ Lemma main_call_skeletons_are_the_state_machine : forall (R : CR) m gr he oid md
   sem_setter_re (sem_calc_ew m (sb_calc sk_re_bodies)) (sb_setter sk_re_bodies) hasq wr rs = set_weights_re_fast m hasq wr rs.
 Proof. intros. split; [apply sk_config_fast|]. split; [apply sk_config_generic|]. split; [apply sk_config_re_fast|].
   split; [apply sk_setter|apply sk_setter_re]. Qed.
+
+Lemma main_schedule_slices_partition_the_rows : forall sizes : list nat,
+  List.length (slices sizes) = List.length sizes /\
+  (forall j, (j < List.length sizes)%nat ->
+     nth j (slices sizes) (0, 0)%nat = (offset sizes j, offset sizes j + nth j sizes 0)%nat /\
+     snd (nth j (slices sizes) (0, 0)%nat) = offset sizes (S j)) /\
+  offset sizes 0 = 0%nat /\ offset sizes (List.length sizes) = total sizes /\
+  (forall lo hi, (lo <= hi)%nat ->
+     (lo + fst (helper_rows (hi - lo) 0) = lo /\ lo + snd (helper_rows (hi - lo) 0) = hi /\
+      forall i, (i < hi - lo)%nat -> lo + helper_grad_row (hi - lo) 0 i = lo + i)%nat).
+Proof. intros sizes. destruct (slices_partition sizes) as [H1 [H2 [H3 H4]]].
+  split; [exact H1|]. split; [exact H2|]. split; [exact H3|]. split; [exact H4|]. intros lo hi H. now apply helper_on_slice. Qed.
 
 Lemma main_re_fast_eq_generic : forall (F : OF) (ln : F -> F) ns m (w ew : option (@vec F)) epsq epsp (A : @mat F) (p q : @vec F),
   ew_matches F m w ew (ns * m) -> (forall i, (i < ns * m)%nat -> kle F (c0 F) (q i)) ->
